@@ -1,6 +1,7 @@
 (* C08 - An interrupted or failed sync can always be repaired by running it again.  Statements only. *)
 From RJ Require Import Base.Prelude Base.OrderedPlan Model.Settings Model.Core Model.Fs Model.Paths Model.Sync Model.SyncTop
-  Spec.PlanSpec Spec.Mirror Proofs.ExecProofs Proofs.MirrorProofs Proofs.InstanceProofs Proofs.CrashProofs Proofs.CrashMain Proofs.WfProofs Proofs.RepairMain Proofs.KillEvents.
+  Spec.PlanSpec Spec.Mirror Proofs.ExecProofs Proofs.MirrorProofs Proofs.InstanceProofs Proofs.CrashProofs Proofs.CrashMain Proofs.WfProofs Proofs.RepairMain Proofs.KillEvents Proofs.ChunkTie.
+From RJ Require Import Gen.Facts_chunks.
 
 (* The invariant (Proofs/CrashProofs.v): on the destination a file that carries a SET time - as opposed
    to the time of its last write - is either the very file that was there before the run, or holds exactly
@@ -118,6 +119,12 @@ Theorem C08_executable_unconditional : forall cfg S D a ans bits ex ft,
   Good S D (r_dest r).
 Proof. exact kill_states_good_unconditional. Qed.
 
+(* The chunk sizes of the executable model are the ones the running code uses (measured by the harness on every
+   run: 4 KiB doubling to 4 MiB); a changed ladder in the code re-checks this obligation. *)
+Theorem C08_chunk_ladder_matches_code :
+  map (fun k => N.of_nat (buf_size k)) (seq 0 14) = firstn 14 impl_ladder.
+Proof. rewrite core_ladder_is_buf_size. exact core_ladder_matches_code. Qed.
+
 (* Non-vacuity and the F4 scenario: a two-chunk file whose first write fails while the boss has already
    queued the last chunk (lag 3).  The last chunk is refused, the run fails, and the destination keeps an
    unstamped partial file; among the kill states there are states with a partially written file. *)
@@ -145,3 +152,4 @@ Print Assumptions C08_executable.
 Print Assumptions C08_states_well_formed.
 Print Assumptions C08_rerun_executable.
 Print Assumptions C08_executable_unconditional.
+Print Assumptions C08_chunk_ladder_matches_code.
